@@ -316,8 +316,18 @@ class Effects:
                 out |= rec(it, True)
             return out
         if tg == 'bin':
-            # list + list, array arithmetic: new object
+            # list + list, array arithmetic: new object; the elements of a concatenation of lists are those of the operands
+            if deep and t[1] == '+' and any(tag(x) in ('list', 'tuple', 'lc') for x in (t[2], t[3])):
+                return rec(t[2], True) | rec(t[3], True)
             return set()
+        if tg in ('list', 'tuple', 'set'):
+            # a literal container is new; what it holds is what was put in
+            if not deep:
+                return set()
+            out = set()
+            for x in t[1]:
+                out |= rec(x, True)
+            return out
         return set()
 
     def _call_origin(self, q, args, kws, deep, func, _depth) -> set:
